@@ -28,6 +28,16 @@ func VerifC12Watch() {
 	tree := New[uint64](opts...)
 	model := &vnd.Map{}
 	txn := tree.Txn()
+	// ALPHA=1: symbolic key bytes range over the small alphabet of the preset keys
+	symKey := func(tag string, l int) []byte {
+		k := vnd.Bytes(tag, l)
+		if vnd.Param("ALPHA", 0) == 1 {
+			for _, b := range k {
+				vnd.Assume(vnd.Or(vnd.And(b >= 'a', b <= 'e'), b == 'x'))
+			}
+		}
+		return k
+	}
 	type wkey struct {
 		ch  <-chan struct{}
 		key []byte
@@ -35,7 +45,7 @@ func VerifC12Watch() {
 	var insW []wkey
 	// PRESET: concrete pre-state shapes that need 3+ keys (inner node with a
 	// leaf and one/two children below a node4 root), then N1 symbolic inserts
-	for _, k := range [][]string{nil, {"a", "ab", "x"}, {"ab", "abc", "abd", "x"}, {"a", "ab", "abc", "x"}, nil, {"ab", "ac", "x"}, {"a1", "a2", "a3", "a4", "a5", "x"}}[vnd.Param("PRESET", 0)] {
+	for _, k := range [][]string{nil, {"a", "ab", "x"}, {"ab", "abc", "abd", "x"}, {"a", "ab", "abc", "x"}, nil, {"ab", "ac", "x"}, {"a1", "a2", "a3", "a4", "a5", "x"}, {"a", "abc", "abd", "x"}}[vnd.Param("PRESET", 0)] {
 		txn.Insert([]byte(k), 5)
 		model.Put([]byte(k), 5)
 	}
@@ -52,7 +62,7 @@ func VerifC12Watch() {
 		model.Del([]byte("abc"))
 	}
 	for i := 0; i < N1; i++ {
-		k := vnd.Bytes("pre", L)
+		k := symKey("pre", L)
 		if vnd.Param("MODIFYWATCH", 0) == 1 && i%2 == 1 {
 			_, _, _, w := txn.ModifyWatch(k, uint64(10+i), func(o, n uint64) uint64 { return n })
 			insW = append(insW, wkey{w, k})
@@ -74,9 +84,9 @@ func VerifC12Watch() {
 	tree = txn.Commit()
 	txn.Notify()
 	// retained channels from the committed tree
-	gk := vnd.Bytes("gk", L)
+	gk := symKey("gk", vnd.Param("WL", L))
 	_, getW, _ := tree.Get(gk)
-	pp := vnd.Bytes("pp", L)
+	pp := symKey("pp", vnd.Param("WL", L))
 	_, prefW := tree.Prefix(pp)
 	rootW := tree.RootWatch()
 	vnd.Assert(vnd.Not(vnd.IsClosed(getW)), "C12.get.open-when-handed-out")
@@ -90,9 +100,18 @@ func VerifC12Watch() {
 	prefChanged := false
 	insChanged := make([]bool, len(insW))
 	for i := 0; i < N2; i++ {
-		k := vnd.Bytes("k", L)
+		// KL1: length bound of the first operation's key (merges on delete need a short key first)
+		kl := L
+		if i == 0 {
+			kl = vnd.Param("KL1", L)
+		}
+		k := symKey("k", kl)
 		changed := false
-		switch vnd.IntRange("op", 0, 2) {
+		opLo := 0
+		if i == 0 && vnd.Param("FIRSTDEL", 0) == 1 {
+			opLo = 2
+		}
+		switch vnd.IntRange("op", opLo, 2) {
 		case 0:
 			txn.Insert(k, uint64(20+i))
 			model.Put(k, uint64(20+i))
